@@ -22,6 +22,15 @@ pub fn pattern_tokens(spec: &LangSpec, n_src: usize) -> Vec<&'static str> {
     .take(n_src)
     .cloned()
     .collect();
+  // one character the grammar cannot tokenise: in a pattern it becomes an ERROR LEAF (a named
+  // terminal of kind ERROR, which stands for any kind but must still agree in text)
+  let junk = match spec.name {
+    "javascript" | "typescript" | "tsx" | "java" => Some("#"),
+    "python" | "go" | "css" | "json" => Some("?"),
+    "c" | "ruby" => Some("`"),
+    _ => None,
+  };
+  v.extend(junk);
   v.extend(HOLES.iter().cloned());
   v
 }
